@@ -47,6 +47,8 @@ SHARED = {
     "add_enl": Add(Exp(Log(x)), y),
     "neg_neg": Neg(Neg(x)),
     "param_over_reducible": NPow(Add(x, C(0)), 3),
+    "mul3": Mul(x, y, Add(x, C(1))),
+    "const_undef_wrapped": Minus(Log(C(-1)), C(2)),
 }
 # shapes whose own simplification enlarges the domain: an in-place rewrite of the caller's tree changes answers
 ENLARGING = {"exp_log": Exp(Log(x)), "sq_sqrt": NPow(Root(x, 2), 2), "recip_recip": Recip(Recip(x)),
@@ -68,6 +70,8 @@ SHARED_C10 = {
     "add_enl": Add(Exp(Log(x)), y),
     "mul_enl": Mul(NPow(Root(y, 2), 2), x),
     "param_over_reducible": NPow(Add(x, C(0)), 3),
+    "const_undef_wrapped": Minus(Log(C(-1)), C(2)),
+    "div_by_zero_const": Div(C(1), C(0)),
 }
 CONTEXTS = {
     "add_y": lambda s: Add(s, y),
@@ -77,6 +81,7 @@ CONTEXTS = {
     "recip": lambda s: Recip(s),
     "exp": lambda s: Exp(s),
     "pow_S_y": lambda s: Pow(s, y),
+    "add_y_S": lambda s: Add(y, s),
     "minus_S_y": lambda s: Minus(s, y),
     "div_S_y": lambda s: Div(s, y),
 }
@@ -102,11 +107,18 @@ class PoolSpec:
                 "slots": list(self.slots), "points": self.points}
 
 
+def _wrt(e, preferred):
+    """The variable a pooled Partial differentiates by: the preferred one when it occurs in the expression, otherwise
+    one that does (a Partial by a variable that does not occur would never embed the shared piece)."""
+    names = sorted(e._variable_names)
+    return preferred if (preferred in names or not names) else names[0]
+
+
 SLOT_KINDS = {
     # slot -> (expression slot, constructor)
-    "P1l": ("e1", lambda e: Partial(e, "x")),
-    "P1e": ("e1", lambda e: Partial(e, smx.Variable("x"), compute_early=True)),
-    "P2l": ("e2", lambda e: Partial(e, "y")),
+    "P1l": ("e1", lambda e: Partial(e, _wrt(e, "x"))),
+    "P1e": ("e1", lambda e: Partial(e, smx.Variable(_wrt(e, "x")), compute_early=True)),
+    "P2l": ("e2", lambda e: Partial(e, _wrt(e, "y"))),
     "Df2l": ("e2", lambda e: Differential(e)),
     "Df2e": ("e2", lambda e: Differential(e, compute_early=True)),
     "Df1e": ("e1", lambda e: Differential(e, compute_early=True)),
@@ -125,7 +137,7 @@ def make_pool(spec: PoolSpec):
         return A.build(t, True, memo)
 
     pool = {"e1": build_with_shared(spec.t1), "e2": build_with_shared(spec.t2), "s": s,
-            "pts": [Point(**p) for p in spec.points], "outs": {}, "kept": None}
+            "pts": [Point(**p) for p in spec.points], "outs": {}, "kept": None, "asexpr_called": ()}
     for sl in spec.slots:
         pool[sl] = None
     return pool
@@ -135,7 +147,7 @@ def make_standalone(spec: PoolSpec):
     """Freshly built, never-used copies: every expression built on its own (tree mode, nothing shared
     between e1, e2 and s).  This is what the answers of the pooled objects are compared with."""
     pool = {"e1": A.build(spec.t1), "e2": A.build(spec.t2), "s": A.build(spec.shared),
-            "pts": [Point(**p) for p in spec.points], "outs": {}, "kept": None}
+            "pts": [Point(**p) for p in spec.points], "outs": {}, "kept": None, "asexpr_called": ()}
     for sl in spec.slots:
         pool[sl] = None
     return pool
@@ -180,6 +192,8 @@ def ops_for(spec: PoolSpec):
             for j in range(np_):
                 ops.append(("out.at", sl, j))
         else:  # Differential
+            ops.append(("Df.at.repr", sl, 0))
+            ops.append(("Df.at.repr", sl, "twin"))
             for j in range(np_):
                 ops.append(("Df.at", sl, j, "y"))
                 for v in VARS:
@@ -250,6 +264,7 @@ def apply_op(pool, op):
         if c[0] == "ok":
             pool[op[1]] = c[1]
             pool["outs"] = {kk: vv for kk, vv in pool["outs"].items() if kk[0] != op[1]}
+            pool["asexpr_called"] = tuple(x for x in pool["asexpr_called"] if x != op[1])
             return ("ok",)
         return c
     obj = pool[op[1]]
@@ -257,6 +272,8 @@ def apply_op(pool, op):
         return A.outcome(lambda: obj.at(pts[op[2]]))
     if k == "asexpr":
         o = A.construct(lambda: obj.as_expression())
+        if op[1] not in pool["asexpr_called"]:
+            pool["asexpr_called"] = tuple(sorted(pool["asexpr_called"] + (op[1],)))
         if o[0] == "ok":
             pool["outs"][(op[1], None)] = o[1]
             return A.outcome(lambda: o[1])
@@ -266,6 +283,16 @@ def apply_op(pool, op):
         return A.outcome(lambda: out.at(pts[op[2]]))
     if k == "Df.at":
         return A.outcome(lambda: obj.at(pts[op[2]]).component(op[3]))
+    if k == "Df.at.repr":
+        # the located differential printed; "twin" = a point equal to point 0 but written differently
+        # (other coordinate order, floats for ints)
+        if op[2] == "twin":
+            p0 = pts[0]
+            items = list(p0._coordinates.items())[::-1]
+            p = Point(**{kk: (float(vv) if isinstance(vv, int) else vv) for kk, vv in items})
+        else:
+            p = pts[op[2]]
+        return _text(lambda: repr(obj.at(p)))
     if k == "Df.component_at":
         return A.outcome(lambda: obj.component_at(op[2], pts[op[3]]))
     if k == "Df.component.asexpr":
@@ -551,13 +578,11 @@ def same_outcome(expected, got, switched):
 
 
 def switched_path(pool, op):
+    """A late object legitimately answers through its symbolic path only after as_expression() was called on it in
+    this history (recorded by the harness, not read from the object's internals)."""
     if op[0] != "obj.at":
         return False
-    o = pool.get(op[1])
-    if o is None:
-        return False
-    p = o._partial if o.__class__.__name__ == "Derivative" else o
-    return op[1].endswith("l") and p._synthetic_partial is not None
+    return op[1].endswith("l") and op[1] in pool.get("asexpr_called", ())
 
 
 class Baselines:
@@ -601,6 +626,11 @@ def c10_problems(pool, spec, fresh_reprs, fresh_evals):
             o = A.outcome(lambda: e.at(p))
             if not same_outcome(fresh_evals[(name, j)], o, False):
                 probs.append(f"{name}.at(point {j}) = {o} but a fresh copy gives {fresh_evals[(name, j)]}")
+        # ... and differentiates / simplifies like a fresh copy
+        d = _text(lambda: repr(Partial(e, _wrt(e, "x")).as_expression()))
+        want_d = fresh_reprs.get(("derivative", name))
+        if want_d is not None and d != want_d:
+            probs.append(f"the simplified derivative of {name} is now {d[1][:140] if len(d) > 1 else d} but that of a fresh copy is {want_d[1][:140]}")
     for j, p in enumerate(pc["pts"]):
         want = spec.points[j]
         if dict(p._coordinates) != want or repr(p) != repr(Point(**want)):
@@ -623,6 +653,9 @@ def c10_problems(pool, spec, fresh_reprs, fresh_evals):
 def fresh_tables(spec, base: Baselines):
     pool = make_standalone(spec)
     reprs = {"e1": repr(pool["e1"]), "e2": repr(pool["e2"])}
+    for name in ("e1", "e2"):
+        f = make_standalone(spec)[name]
+        reprs[("derivative", name)] = _text(lambda: repr(Partial(f, _wrt(f, "x")).as_expression()))
     evals = {}
     for name in ("e1", "e2"):
         for j in range(len(spec.points)):
@@ -680,6 +713,8 @@ def show_op(spec, op):
         return f"{op[1]}.as_expression().at({P(op[2])})"
     if k == "Df.at":
         return f"{op[1]}.at({P(op[2])}).component('{op[3]}')"
+    if k == "Df.at.repr":
+        return f"repr({op[1]}.at({'point 0 written in reverse order with float coordinates' if op[2] == 'twin' else P(op[2])}))"
     if k == "Df.component_at":
         return f"{op[1]}.component_at('{op[2]}', {P(op[3])})"
     if k == "Df.component.asexpr":
@@ -764,6 +799,8 @@ def _explore(spec: PoolSpec, state_cap, check_c10, st: Stats):
             if not same_outcome(want, got, sw):
                 if len(v09) < 5:
                     v09.append((hist + (op,), f"{show_op(spec, op)} -> {_short(got)} but on a never-used pool -> {_short(want)}"))
+                if op[0] in ("repr", "out.repr", "Df.at.repr") and len(v10) < 5:
+                    v10.append((hist + (op,), f"{show_op(spec, op)} prints {_short(got)} but a freshly built copy prints {_short(want)}"))
             key = key_next
             if key in seen:
                 continue
@@ -826,6 +863,16 @@ def pool_specs(pid, tier):
     for sname, sterm in F3_SHARED.items():
         specs.append(PoolSpec(f"{sname}/add_y+npow2", sterm, "add_y", "npow2", ("P1l", "Df2l"),
                               points=[{"x": 2, "y": 3}, {"x": -3, "y": 1}, {"x": 0, "y": 0}]))
+    # variable-free sub-expressions that are undefined everywhere, not in reduced form, under parents with a variable
+    specs.append(PoolSpec("undef_wrapped/div_y_S+pow_S_y", Minus(Log(C(-1)), C(2)), "div_y_S", "pow_S_y", ("P1l", "P2l"),
+                          points=[POINTS[0], POINTS[1], POINTS[3]]))
+    specs.append(PoolSpec("undef_div/div_y_S+minus_S_y", Div(C(1), C(0)), "div_y_S", "minus_S_y", ("P1l", "Df2e"),
+                          points=[POINTS[0], POINTS[1], POINTS[3]]))
+    # products of three factors whose only parents are sums (no parent re-evaluates the product before a reverse pass)
+    specs.append(PoolSpec("mul3/add_y+minus_S_y", Mul(x, y, Add(x, C(1))), "add_y", "minus_S_y", ("P1l", "P2l"),
+                          points=[POINTS[0], POINTS[1], POINTS[2]]))
+    specs.append(PoolSpec("mul3/add_y_S+add_y", Mul(y, x, x), "add_y_S", "add_y", ("P1e", "Df2l"),
+                          points=[POINTS[0], POINTS[1], POINTS[3]]))
     # a pool explored under a tight step budget, with an operation that makes simplification raise part-way:
     # step-budget state that leaks from one call into the next becomes visible within a few operations
     specs.append(PoolSpec("budget/mul", Mul(x, y), "add_y", "exp", ("P1l", "Df2e"),
